@@ -253,11 +253,53 @@ def targeted_called(rnd):
     return f"Select(EventDataset(), lambda {E}: (lambda {X}: {inner})({arg_outer}))"
 
 
+def targeted_functions(rnd):
+    """function VALUES handed to a called lambda and applied below a stage lambda whose parameter re-uses a name that is live in the
+    function: in a default written name=name (evaluated where the function is written), in its body, in a keyword-only default"""
+    pool = ["e", "j", "t", "k"]
+    E, J, X = rnd.choice(pool), rnd.choice(pool), rnd.choice(pool)
+    F = rnd.choice(["f", "g", "fn"])
+    if J == E:
+        J = "j_"
+    D = X if X != J else "d_"  # (the name of a defaulted parameter of the function: any name but its first parameter's)
+    fn = rnd.choice([f"lambda {J}, {E}={E}: {J}.pt + {E}.met", f"lambda {J}, *, {E}={E}: {J}.pt + {E}.met", f"lambda {J}: {J}.pt + {E}.met", f"lambda {J}, m_={E}.met: {J}.pt + m_",
+                     f"lambda {J}, {E}={E}.met: {J}.pt + {E}", f"lambda {J}, /, {D}={E}: {J}.pt + {D}.met"])
+    apply = rnd.choice([f"(lambda {F}: Select({E}.jets, lambda {X}: {F}({X})))({fn})", f"(lambda {F}: Count(Where({E}.jets, lambda {X}: {F}({X}) > 1)))({fn})",
+                        f"(lambda {F}, s_: Select(s_, lambda {X}: {F}({X})))({fn}, {E}.jets)", f"(lambda s_, {F}: Select(Select(s_, lambda {X}: {X}), lambda {X}: {F}({X})))({F}={fn}, s_={E}.jets)"])
+    return f"Select(EventDataset(), lambda {E}: {apply})"
+
+
+def targeted_first(rnd):
+    """a variable bound to First(<sequence mentioning a live outer name>) by a called lambda, read by attribute / key / index inside a
+    second, lambda-free called lambda whose parameter re-uses that outer name: the First push-through rules re-visit the value"""
+    pool = ["e", "j", "t"]
+    E = rnd.choice(pool)
+    B = rnd.choice(["b", "p", "q"])
+    P = E if rnd.random() < 0.7 else rnd.choice(pool)
+    kind = rnd.randrange(3)
+    if kind == 0:
+        seq, read = f"Where({E}.jets, lambda j_: j_.pt > {E}.met)", rnd.choice([".pt", ".eta"])
+    elif kind == 1:
+        seq, read = f"Select({E}.jets, lambda j_: (j_.pt + {E}.met, j_.eta))", rnd.choice(["[0]", "[1]", "[-1]"])
+    else:
+        seq, read = f"Select({E}.jets, lambda j_: {{'a': j_.pt, 'm': {E}.met}})", rnd.choice([".a", "['m']", ".m"])
+    arg = rnd.choice([f"{E}.met", "2", f"{B}{read}", "1 + 2"])  # (the inner argument mentions the re-used name, or nothing at all)
+    seq = seq if rnd.random() < 0.6 else f"{E}.jets"
+    if seq == f"{E}.jets":
+        read = rnd.choice([".pt", ".eta"])
+    inner = rnd.choice([f"(lambda {P}: {B}{read} + {P})({arg})", f"(lambda {P}, k_: {B}{read} + {P} * k_)({arg}, k_=2)", f"(lambda {P}: ({B}{read}, {P})[0] + {P})({arg})"])
+    return f"Select(Where(EventDataset(), lambda w_: Count(w_.jets) > 0), lambda {E}: (lambda {B}: {inner})(First({seq})))"
+
+
 def targeted_capture(rnd):
     k = rnd.random()
-    if k < 0.35:
+    if k < 0.15:
+        return targeted_functions(rnd)
+    if k < 0.28:
+        return targeted_first(rnd)
+    if k < 0.45:
         return targeted_called(rnd)
-    if k < 0.5:
+    if k < 0.6:
         return targeted_defaults(rnd)
     return targeted_reuse(rnd)
 
